@@ -276,6 +276,32 @@ def thorough_extra(pid, w, fids):
             with open(path, "w") as f:
                 json.dump({"property": pid, "obligation": f"conformance:{wn}", "witness": {"name": wn, "detail": detail, "rerun": f".venv/bin/python witnesses/e2e.py {wn}"}, "rerun": f"./check replay {path}"}, f, indent=1, default=str)
             rep["violations"].append({"replay_file": path, "oid": f"conformance:{wn}"})
+    # (1b) demonstrations written by independent sub-agents for the seeded changes of this property: each passes on the
+    #      tree it was written for without its change; run here on the current tree they are a broad conformance suite
+    import glob
+    rep["independent_demos"] = []
+    repo = os.environ.get("PYVC_REPO", "/repo")
+    for mp in sorted(glob.glob(os.path.join(VERIF, "seeded", "agent*", "meta.json"))):
+        try:
+            meta = json.load(open(mp))
+        except Exception:
+            continue
+        demo = os.path.join(os.path.dirname(mp), "demo.py")
+        if pid not in str(meta.get("breaks_property", "")) or not os.path.isfile(demo):
+            continue
+        env = dict(os.environ, PYTHONPATH=repo + os.pathsep + VERIF, JAX_PLATFORMS="cpu")
+        try:
+            p_ = subprocess.run(["/venv/bin/python", demo], capture_output=True, text=True, timeout=1500, env=env, cwd=repo)
+            res, tail = ("passes" if p_.returncode == 0 else f"FAILS (exit {p_.returncode})"), (p_.stdout + p_.stderr)[-300:]
+        except subprocess.TimeoutExpired:
+            res, tail = "not decided (timeout)", ""
+        rep["independent_demos"].append({"demo": os.path.relpath(demo, VERIF), "result": res, "tail": tail if res != "passes" else ""})
+        if res.startswith("FAILS"):
+            os.makedirs(os.path.join(REPLAYS, pid), exist_ok=True)
+            path = os.path.join(REPLAYS, pid, "demo__" + os.path.basename(os.path.dirname(mp)) + ".json")
+            with open(path, "w") as f:
+                json.dump({"property": pid, "obligation": f"independent-demo:{os.path.relpath(demo, VERIF)}", "output_tail": tail, "rerun": f"cd {repo} && PYTHONPATH={repo} /venv/bin/python {demo}"}, f, indent=1)
+            rep["violations"].append({"replay_file": path, "oid": f"independent-demo:{os.path.basename(os.path.dirname(mp))}"})
     if os.environ.get("PYVC_REPO"):
         return rep      # already running on a scratch copy: no nested self-test
     muts = [m for m in load_json(os.path.join(VERIF, "contracts", "MUTATIONS.json"), {"mutations": []})["mutations"] if pid in m["properties"]]
